@@ -305,6 +305,18 @@ static void checkRoundTrips(const Position& P, const ref::Pos& R, const std::str
         std::string d2 = cmpFresh(Q);
         if (!d2.empty()) rep.viol("deserialize-state", hist + " " + fen + " differs:" + d2);
         rep.add("serialize_roundtrips");
+        // the same into an object that already held another position (tools re-use one Position for many records)
+        static thread_local Position reused;
+        reused.deSerialize(sd);
+        std::string d3 = cmpSame(reused, P);
+        if (!d3.empty()) rep.viol("serialize-roundtrip-into-used-object", hist + " " + fen + " differs:" + d3);
+        std::string d4 = cmpFresh(reused);
+        if (!d4.empty()) rep.viol("deserialize-state-in-used-object", hist + " " + fen + " differs:" + d4);
+        // and assignment / copy construction over a used object
+        static thread_local Position assigned;
+        assigned = P;
+        std::string d5 = cmpSame(assigned, P);
+        if (!d5.empty()) rep.viol("copy-into-used-object", hist + " " + fen + " differs:" + d5);
     }
 }
 
